@@ -197,7 +197,7 @@ func c18(c *Ctx) {
 			cases = append(cases, reqCase{ID: "shape/" + sc.ID, Files: sc.Files, Gen: sc.Gen})
 		}
 	}
-	cases = append(cases, yamlRetypeCase(), importedMessagesCase(), threeServicesCase(), yaml11NamesCase(), sameShortNameCase("nested"), sameShortNameCase("top-vs-nested"), sameShortNameCase("imported"), discVariantTypesCase(false), discVariantTypesCase(true))
+	cases = append(cases, yamlRetypeCase(), importedMessagesCase(), threeServicesCase(), yaml11NamesCase(), sameShortNameCase("nested"), sameShortNameCase("top-vs-nested"), sameShortNameCase("imported"), discVariantTypesCase(false), discVariantTypesCase(true), pathVariableSpellingsCase())
 	plugin.Parallel(len(cases), 16, func(i int) {
 		rc := cases[i]
 		base := "oas/" + rc.ID
@@ -515,6 +515,29 @@ func threeServicesCase() reqCase {
 	// C's path var {a} is a message -> invalid for go-http but openapi is a separate plugin; keep valid: use body-only for Gamma
 	f.Services[2].Methods[0].HTTP.Path = "/get"
 	return reqCase{ID: "three-services", Files: []*spec.File{f}}
+}
+
+// pathVariableSpellingsCase: the OpenAPI plugin also runs alone, on definitions the Go server plugin
+// would refuse — path variables spelled like a field's JSON name, in another case, or naming no
+// field at all. Whatever type the document gives such a parameter, the template and the declared
+// path parameters must still name the same variables.
+func pathVariableSpellingsCase() reqCase {
+	pkg := "c18.pathvars"
+	f := &spec.File{Path: "c18/pathvars.proto", Package: pkg, GoImport: "lab/gen/c18pv", GoName: "c18pv"}
+	req := func(name string) *spec.Message {
+		return &spec.Message{Name: name, Fields: []*spec.Field{spec.F("user_id", 1, spec.String), spec.F("post_id", 2, spec.Int64), spec.F("slug", 3, spec.String), spec.F("note", 4, spec.String)}}
+	}
+	f.Messages = []*spec.Message{req("ByProto"), req("ByJSON"), req("ByCase"), req("ByNone"), req("ByMixed"), {Name: "PVResp", Fields: []*spec.Field{spec.F("ok", 1, spec.Bool)}}}
+	in := func(m string) string { return "." + pkg + "." + m }
+	f.Services = []*spec.Service{{Name: "PathVarService", BasePath: spec.S("/api/v1"), Methods: []*spec.Method{
+		{Name: "ByProto", In: in("ByProto"), Out: in("PVResp"), HTTP: &spec.HTTP{Path: "/a/{user_id}/posts/{post_id}", Verb: 2}},
+		{Name: "ByJSON", In: in("ByJSON"), Out: in("PVResp"), HTTP: &spec.HTTP{Path: "/b/{userId}/posts/{postId}", Verb: 2}},
+		{Name: "PutByJSON", In: in("ByJSON"), Out: in("PVResp"), HTTP: &spec.HTTP{Path: "/b/{userId}/posts/{postId}", Verb: 3}},
+		{Name: "ByCase", In: in("ByCase"), Out: in("PVResp"), HTTP: &spec.HTTP{Path: "/c/{USER_ID}/{Slug}", Verb: 2}},
+		{Name: "ByNone", In: in("ByNone"), Out: in("PVResp"), HTTP: &spec.HTTP{Path: "/d/{user-id}/{nope}", Verb: 2}},
+		{Name: "ByMixed", In: in("ByMixed"), Out: in("PVResp"), HTTP: &spec.HTTP{Path: "/e/{user_id}/{postId}/{slug}", Verb: 2}},
+	}}}
+	return reqCase{ID: "path-variable-spellings", Files: []*spec.File{f}}
 }
 
 // yaml11NamesCase uses field / parameter names that YAML 1.1 readers resolve as booleans.
